@@ -396,11 +396,12 @@ theorem exRaw_fits : ∀ o, Fits 2 2 (exRaw o) := by
 /-- the run returns; pole (0,1) fails the damping limit `1/10` (and has no conjugate) and is blanked in all
     four tables, the pair (0,0)/(1,0) is kept with unchanged values -/
 example : (lrunClass Gen.prog_SSIdat ⟨1/10, 7/10, 3/10, 1⟩ true false exRaw).map
-      (fun res => res.map fun fx => (fx.1, fx.2.map fun t => t.map (·.map Option.isSome)))
-    = some [("Lambds", some [[true, false], [true, false]]), ("Fn_poles", some [[true, false], [true, false]]),
-        ("Xi_poles", some [[true, false], [true, false]]), ("Phi_poles", some [[true, false], [true, false]]),
-        ("Fn_poles_cov", none), ("Xi_poles_cov", none), ("Phi_poles_cov", none)] := by
-  decide +kernel
+      (fun res => ["Lambds", "Fn_poles", "Xi_poles", "Phi_poles", "Fn_poles_cov", "Xi_poles_cov", "Phi_poles_cov"].map fun f =>
+        (res.lookup f).map fun o => o.map fun t => t.map (·.map Option.isSome))
+    = some [some (some [[true, false], [true, false]]), some (some [[true, false], [true, false]]),
+        some (some [[true, false], [true, false]]), some (some [[true, false], [true, false]]),
+        some none, some none, some none] := by
+  decide +kernel  -- looked up by field name: the order of the keywords in the source's `SSIResult(...)` call is immaterial
 
 example := C09_lrun_all (Gen.prog_SSIdat, requiredSSI, true) (List.Mem.head _) true false rfl ⟨1/10, 7/10, 3/10, 1⟩ 2 2
   exRaw exRaw_fits
